@@ -3,49 +3,66 @@ package vk
 import (
 	"os"
 	"path/filepath"
-	"regexp"
 	"sort"
 	"strings"
 )
 
 // Race-detector integration.  The driver starts -race binaries with
 // GORACE="log_path=<prefix> halt_on_error=0 exitcode=0" and VERIF_RACE_LOG=<prefix>.
-// After the tests ran, Main parses the report files: every report whose two
-// access stacks touch the repository becomes a verdict with signature
-// "<prop>:race:<funcA> <-> <funcB>" (top in-repo function of each stack,
-// sorted), handled like any other Report (known finding or violation).
+// After the tests ran, Main parses the report files.  Each report has two access
+// stacks.  An access is attributed to the first frame (from the top) that is
+// repository code or harness code (runtime / stdlib / third-party frames above it
+// are skipped).  If either access is made by harness code the report is a harness
+// problem (exit 3 -> the driver reports infrastructure), never a verdict.
+// Otherwise the verdict signature is
+//
+//	<prop>:race:<funcA> <-> <funcB>      (attributed functions, sorted)
+//
+// A known-finding entry may name that exact pair, or a root cause of the form
+//
+//	<prop>:race-involving:<func>
+//
+// which matches every report in which <func> appears ANYWHERE in one of the two
+// access stacks ("everything this function does runs without the
+// synchronisation it needs, whatever it races with").
 
-var raceFuncRe = regexp.MustCompile(`^  (\S.*)\(.*\)$`)
-
-func topRepoFunc(section string) (string, bool) {
-	first := ""
-	for _, ln := range strings.Split(section, "\n") {
-		m := raceFuncRe.FindStringSubmatch(ln)
-		if m == nil {
-			// function lines look like "  pkg.Func()" ; file lines are indented deeper
-			if strings.HasPrefix(ln, "  ") && !strings.HasPrefix(ln, "   ") && strings.HasSuffix(ln, ")") {
-				if i := strings.LastIndex(ln, "("); i > 2 {
-					m = []string{ln, ln[2:i]}
-				}
-			}
-			if m == nil {
-				continue
-			}
-		}
-		fn := m[1]
-		if first == "" {
-			first = fn
-		}
-		if strings.Contains(fn, "github.com/elastos/Elastos.ELA/") {
-			return strings.TrimPrefix(fn, "github.com/elastos/Elastos.ELA/"), true
-		}
-	}
-	return first, false
+type raceReport struct {
+	sig    string
+	text   string
+	stacks [2][]string // repo functions of each access stack, top first
 }
 
-// RaceSignatures parses race-detector output text.
-func RaceSignatures(text string) (sigs []string, reports map[string]string, harnessOnly int) {
-	reports = map[string]string{}
+func stackFuncs(section string) (all []string, fn string, owner string) {
+	owner = "none"
+	for _, ln := range strings.Split(section, "\n") {
+		if !(strings.HasPrefix(ln, "  ") && !strings.HasPrefix(ln, "   ") && strings.HasSuffix(ln, ")")) {
+			continue
+		}
+		i := strings.LastIndex(ln, "(")
+		if i <= 2 {
+			continue
+		}
+		f := ln[2:i]
+		switch {
+		case strings.Contains(f, "github.com/elastos/Elastos.ELA/"):
+			f = strings.TrimPrefix(f, "github.com/elastos/Elastos.ELA/")
+			all = append(all, f)
+			if owner == "none" {
+				fn, owner = f, "repo"
+			}
+		case strings.HasPrefix(f, "verifharness/"):
+			if owner == "none" {
+				fn, owner = f, "harness"
+			}
+		}
+	}
+	return
+}
+
+// ParseRaceReports parses race-detector output text.
+func ParseRaceReports(text string) (reps []raceReport, harness map[string]string) {
+	harness = map[string]string{}
+	seen := map[string]bool{}
 	for _, blk := range strings.Split(text, "==================") {
 		if !strings.Contains(blk, "WARNING: DATA RACE") {
 			continue
@@ -64,26 +81,35 @@ func RaceSignatures(text string) (sigs []string, reports map[string]string, harn
 		if len(acc) < 2 {
 			continue
 		}
-		f1, r1 := topRepoFunc(acc[0])
-		f2, r2 := topRepoFunc(acc[1])
-		if !r1 && !r2 {
-			harnessOnly++
+		all1, f1, o1 := stackFuncs(acc[0])
+		all2, f2, o2 := stackFuncs(acc[1])
+		if o1 != "repo" || o2 != "repo" {
+			harness[f1+" <-> "+f2] = firstLines(strings.TrimSpace(blk), 40)
 			continue
 		}
 		pair := []string{f1, f2}
 		sort.Strings(pair)
 		sig := "race:" + pair[0] + " <-> " + pair[1]
-		if _, ok := reports[sig]; !ok {
-			sigs = append(sigs, sig)
-			reports[sig] = strings.TrimSpace(blk)
+		if seen[sig] {
+			continue
 		}
+		seen[sig] = true
+		reps = append(reps, raceReport{sig: sig, text: strings.TrimSpace(blk), stacks: [2][]string{all1, all2}})
 	}
-	sort.Strings(sigs)
+	sort.Slice(reps, func(i, j int) bool { return reps[i].sig < reps[j].sig })
 	return
 }
 
+func firstLines(s string, n int) string {
+	l := strings.Split(s, "\n")
+	if len(l) > n {
+		l = l[:n]
+	}
+	return strings.Join(l, "\n")
+}
+
 // processRaceLogs is called by Main after m.Run. It returns the number of
-// unlisted race signatures (each recorded as a violation) and harness-only races.
+// unlisted race signatures (each recorded as a violation) and harness races.
 func processRaceLogs() (unlisted int, harnessOnly int) {
 	prefix := os.Getenv("VERIF_RACE_LOG")
 	if prefix == "" {
@@ -98,20 +124,50 @@ func processRaceLogs() (unlisted int, harnessOnly int) {
 			all.WriteString("\n")
 		}
 	}
-	sigs, reports, ho := RaceSignatures(all.String())
+	reps, harness := ParseRaceReports(all.String())
 	st.mu.Lock()
 	defer st.mu.Unlock()
-	st.counters["race_reports_distinct"] += int64(len(sigs))
-	for _, s := range sigs {
-		sig := st.property + ":" + s
-		if k, ok := st.known[st.property+"|"+sig]; ok {
-			st.excluded[sig]++
-			st.knownWhat[sig] = k.What
+	st.counters["race_reports_distinct"] += int64(len(reps))
+	for k, v := range harness {
+		st.notes["harness_race "+k] = v
+		harnessOnly++
+	}
+	// root-cause entries of this property
+	var involving []string
+	pfx := st.property + "|" + st.property + ":race-involving:"
+	for k := range st.known {
+		if strings.HasPrefix(k, pfx) {
+			involving = append(involving, strings.TrimPrefix(k, pfx))
+		}
+	}
+	sort.Strings(involving)
+	for _, r := range reps {
+		sig := st.property + ":" + r.sig
+		matched := ""
+		if _, ok := st.known[st.property+"|"+sig]; ok {
+			matched = sig
+		} else {
+		search:
+			for _, f := range involving {
+				for _, stk := range r.stacks {
+					for _, g := range stk {
+						if g == f {
+							matched = st.property + ":race-involving:" + f
+							break search
+						}
+					}
+				}
+			}
+		}
+		if matched != "" {
+			st.excluded[matched]++
+			st.knownWhat[matched] = st.known[st.property+"|"+matched].What
+			st.counters["race_pair "+r.sig]++
 			continue
 		}
-		path := writeReplay(sig, "data race reported by the Go race detector", map[string]any{"report": reports[s]})
+		path := writeReplay(sig, "data race reported by the Go race detector", map[string]any{"report": r.text})
 		st.violations[sig] = path
 		unlisted++
 	}
-	return unlisted, ho
+	return unlisted, harnessOnly
 }
